@@ -249,6 +249,8 @@ func mergeSig(msg string) string {
 		return "intra-part-order"
 	case strings.Contains(msg, "is behind a Netspoc entry"):
 		return "raw-not-first"
+	case strings.Contains(msg, "is behind the trailing deny entry"):
+		return "append-behind-trailing-deny"
 	case strings.Contains(msg, "[APPEND]"):
 		return "append-position"
 	}
@@ -513,7 +515,7 @@ func (x *c18) casePanos(idx int64, b core.Files, p mergeParts) {
 		}
 	}
 	isPermit := func(e string) bool { return strings.HasPrefix(e, "allow") }
-	if msg := checkMerge(got, p, isPermit, true); msg != "" {
+	if msg := checkMerge(got, p, isPermit, false); msg != "" {
 		x.violation("PAN-OS", "parts-panos", idx, dev, b, out.Script(), "merge-order", "merge:"+mergeSig(msg),
 			msg+"\nresulting rulebase:\n  "+strings.Join(got, "\n  "))
 		return
@@ -665,7 +667,7 @@ func c18Worker(ctx *core.Ctx) *core.Result {
 func init() {
 	registerSharded("C18", c18Worker, func(tier string) core.Meta {
 		return core.Meta{ID: "C18", Level: "exploration",
-			Rule:        "all combinations of part shapes: Netspoc IPv4 part {empty, only deny, permit+deny, only permits, 2 permits+deny, 2 denies} x IPv6 part (same shapes; ASA, PAN-OS, NSX) x raw prepend entries {0,1,2} x raw [APPEND] entries {0,1,2} x raw ACL name {equal to Netspoc's, own}; Linux additionally x raw file layout {one table with / without COMMIT line, a second table with its own [APPEND] section in front, with / without COMMIT between}; for ASA, IOS, Linux, PAN-OS, NSX; several containers: PAN-OS two vsys x each part holding 0..3 rules for either (144 combinations), NSX three gateway policies x each part holding any subset (511 combinations); the effective target is observed as the state an empty device model reaches after executing the script of the real planner; oracle = independent list predicates: every entry exactly once, order inside each part preserved, raw entries in front of all Netspoc entries, [APPEND] entries behind the last permitting Netspoc entry and in front of the trailing deny/drop entries (PAN-OS: at the end; NSX: only completeness); plus a list of legal raw constructs that must arrive completely (group referenced by two raw lines, raw / IPv6 service-groups, raw route equal to a Netspoc route) and a list of unmergeable raw entries (unknown command, unbound / doubly bound object, name clash, forbidden names) that must give an error or a warning; non-trivial = combinations the tool accepted and whose result was checked",
+			Rule:        "all combinations of part shapes: Netspoc IPv4 part {empty, only deny, permit+deny, only permits, 2 permits+deny, 2 denies} x IPv6 part (same shapes; ASA, PAN-OS, NSX) x raw prepend entries {0,1,2} x raw [APPEND] entries {0,1,2} x raw ACL name {equal to Netspoc's, own}; Linux additionally x raw file layout {one table with / without COMMIT line, a second table with its own [APPEND] section in front, with / without COMMIT between}; for ASA, IOS, Linux, PAN-OS, NSX; several containers: PAN-OS two vsys x each part holding 0..3 rules for either (144 combinations), NSX three gateway policies x each part holding any subset (511 combinations); the effective target is observed as the state an empty device model reaches after executing the script of the real planner; oracle = independent list predicates: every entry exactly once, order inside each part preserved, raw entries in front of all Netspoc entries, [APPEND] entries behind the last permitting Netspoc entry and in front of the trailing deny/drop entries (PAN-OS puts them at the very end: known finding F-C18-panos-append-at-end; NSX: only completeness); plus a list of legal raw constructs that must arrive completely (group referenced by two raw lines, raw / IPv6 service-groups, raw route equal to a Netspoc route) and a list of unmergeable raw entries (unknown command, unbound / doubly bound object, name clash, forbidden names) that must give an error or a warning; non-trivial = combinations the tool accepted and whose result was checked",
 			Assumptions: []string{"relative order of IPv4 and IPv6 entries is not prescribed by the statement and not checked"},
 			Bounds:      map[string]any{"entries per part": "<=3 Netspoc, <=2 raw, <=2 APPEND"},
 		}
@@ -759,7 +761,7 @@ func (x *c18) runPanosMulti() {
 									got = append(got, act+" "+strings.Join(r.Members("source"), ","))
 								}
 								p := mergeParts{v4: l4[vi], v6: l6[vi], pre: lr[vi]}
-								if msg := checkMerge(got, p, func(e string) bool { return true }, true); msg != "" {
+								if msg := checkMerge(got, p, func(e string) bool { return true }, false); msg != "" {
 									x.violation("PAN-OS", "parts-panos-vsys", idx, dev, b, out.Script(), "merge-order", "merge:"+mergeSig(msg),
 										fmt.Sprintf("vsys%d: %s\nresulting rulebase:\n  %s", vi+1, msg, strings.Join(got, "\n  ")))
 									break
